@@ -12,7 +12,9 @@ ok, out = core.coq_make([], timeout=3000)
 print(out[-3000:])
 if not ok:
     sys.exit(1)
-ok, out, binp = core.harness_build()
+import glob, os
+bins = [os.path.basename(f)[:-3] for f in glob.glob('harness/src/bin/*.rs')]
+ok, out, binp = core.harness_build(bins)
 print(out[-3000:])
 sys.exit(0 if ok else 1)
 PY
